@@ -629,7 +629,8 @@ func showResp(r *graphql.Response) string {
 		d = 1
 	}
 	for _, e := range r.Errors {
-		if strings.Contains(e.Message, "Did you mean") {
+		// a suggestion made by the field-existence rule (other rules suggest type / argument names)
+		if strings.HasPrefix(e.Message, "Cannot query field") && strings.Contains(e.Message, "Did you mean") {
 			s = 1
 		}
 	}
@@ -663,7 +664,11 @@ func (s *session) do(r *request) (acc string, resps string, log string, flags st
 		if err := json.Unmarshal(w.Body.Bytes(), &resp); err != nil {
 			return "baddoc", w.Body.String(), strings.Join(rl.ev, ","), "http"
 		}
-		rs = append(rs, showResp(&resp))
+		if strings.TrimSpace(w.Body.String()) == "null" {
+			rs = append(rs, "nil") // the handler answered nil: transport.POST writes the JSON text null
+		} else {
+			rs = append(rs, showResp(&resp))
+		}
 		// accepted? : what CreateOperationContext decided is visible as "some event after the gates"
 		acc = "rej"
 		if c := codeOf(resp.Errors); c == "-" || c == "X" || strings.HasPrefix(c, "blk") {
